@@ -12,6 +12,17 @@ else:
     d = json.load(open(out)); os.unlink(out)
 names = sorted(f["path"] for f in d["fns"] if f["kind"] in ("Fn", "AssocFn"))
 json.dump(names, open(os.path.join(HERE, "rules", "known_fns.json"), "w"), indent=0)
-sigs = {f["path"]: [f.get("inputs"), f.get("output")] for f in d["fns"] if f["kind"] in ("Fn", "AssocFn")}
+sigs = {f["path"]: [f.get("inputs"), f.get("output"), [(p["pat"].get("name") if p["pat"].get("k") == "PBind" else None) for p in (f.get("hir") or {}).get("params", [])]]
+        for f in d["fns"] if f["kind"] in ("Fn", "AssocFn")}
 json.dump(sigs, open(os.path.join(HERE, "rules", "known_sigs.json"), "w"), indent=0)
+adts = {a["path"]: {"kind": a.get("kind"), "variants": [{"name": v["name"], "discr": v.get("discr"),
+                                                             "fields": [[f.get("name"), f.get("ty")] for f in v.get("fields", [])]}
+                                                            for v in a.get("variants", [])]} for a in d["adts"]}
+json.dump(adts, open(os.path.join(HERE, "rules", "known_adts.json"), "w"), indent=0)
+import sys
+sys.path.insert(0, HERE)
+os.environ["VERIF_NO_INLINE"] = "1"
+from rules import core, hir, inline      # noqa: E402
+F = core.Facts(d)
+json.dump(inline.summaries_of(F, names), open(os.path.join(HERE, "rules", "known_summaries.json"), "w"), indent=0)
 print(len(names), "functions frozen")
